@@ -114,10 +114,14 @@ func runCRDTDecision(c *core.Ctx) {
 			call, ok := an.Unparen(as.Rhs[0]).(*ast.CallExpr)
 			return ok && an.IsBuiltin(info, call, "append")
 		}, bools: []string{"i.Done()", "remOK"}, ints: map[string]string{"addVC.compare(remVC)": ""},
-			ref: func(a dtAtoms) bool { return !a.B("i.Done()") && (!a.B("remOK") || a.I("addVC.compare(remVC)") != K(a, "LT")) }},
+			ref: func(a dtAtoms) bool {
+				return !a.B("i.Done()") && (!a.B("remOK") || a.I("addVC.compare(remVC)") != K(a, "LT"))
+			}},
 		{fn: "AWORSet.Merge", key: "keeps-add-unless-dominated", occ: true, why: "a merged add survives unless the merged removal strictly dominates it", find: builderSet("addB"),
 			bools: []string{"i.Done()#1", "i.Done()#2", "remOk", "addOk"}, ints: map[string]string{"addVC.compare(remVC)#1": "", "addVC.compare(remVC)#2": ""},
-			ref: func(a dtAtoms) bool { return !a.B("i.Done()#1") && (!a.B("remOk") || a.I("addVC.compare(remVC)#1") != K(a, "LT")) }},
+			ref: func(a dtAtoms) bool {
+				return !a.B("i.Done()#1") && (!a.B("remOk") || a.I("addVC.compare(remVC)#1") != K(a, "LT"))
+			}},
 		{fn: "AWORSet.Merge", key: "keeps-removal-only-if-dominating", occ: true, why: "a merged removal survives only if there is no add or it strictly dominates the add", find: builderSet("remB"),
 			bools: []string{"i.Done()#1", "i.Done()#2", "remOk", "addOk"}, ints: map[string]string{"addVC.compare(remVC)#1": "", "addVC.compare(remVC)#2": ""},
 			ref: func(a dtAtoms) bool {
